@@ -10,6 +10,8 @@
         pts = key-point rows of every cache entry / .npz file, lab, mem]
        [op "get", i (1-based), raised, res, cache, pts = key-point rows of the returned sample,
         zero / pzero = 1 for map channels (PAF channel pairs) that are identically zero, lab, mem]
+       [op "call", f, raised, cache, lab, mem]   a helper of the functional API applied to the tensors of
+        the sample returned last (in memory mode the frame-level classes return the cached tensors)
      lab   = 0 iff every label array (key points of every original instance, every video frame) is unchanged
      mem   = the frames' current instance lists (indices of the original instances, 0 = foreign object)
      cache = per index 0 iff the cache entry (.npz content) equals its value right after construction
@@ -32,7 +34,8 @@ Init == /\ tid \in 1..Len(Traces) /\ l = 1
 IsEvent(k) == l <= Len(Ev) /\ Ev[l].op = k /\ l' = l + 1 /\ tid' = tid
 TBuild == IsEvent("build") /\ Build(FALSE)
 TGet == IsEvent("get") /\ GetItem(Ev[l].i)
-Next == TBuild \/ TGet
+TCall == IsEvent("call") /\ Call(Ev[l].f)
+Next == TBuild \/ TGet \/ TCall
 
 FirstBad(n, M(_)) == LET bad == {k \in 1..n : M(k) # "ok"} IN IF bad = {} THEN "ok" ELSE M(Min(bad))
 
@@ -55,7 +58,10 @@ ObsClause(e) ==
     IF e.raised # "" THEN "raised"
     ELSE IF e.lab # 0 THEN "labels_changed_by_" \o e.op
     ELSE IF e.mem # member THEN "instance_list_differs_after_" \o e.op
-    ELSE IF e.op = "build" THEN BuildClause(e) ELSE GetClause(e)
+    ELSE IF e.op = "build" THEN BuildClause(e)
+    ELSE IF e.op = "get" THEN GetClause(e)
+    ELSE IF Len(e.cache) # Len(cache) \/ (\E k \in 1..Len(e.cache) : e.cache[k] # 0) THEN "cache_changed_by_call"
+    ELSE "ok"
 
 \* like Verdict!VReject but without the cap on recorded ids: while a defect is present many histories are
 \* rejected for it, and a different violation must never be crowded out of the report
